@@ -39,6 +39,7 @@ CONSTANTS Threads,     \* thread ids
 NaN  == 1000001       \* symbolic f64 values (never produced by integer arithmetic of the scopes used)
 PInf == 1000002
 NInf == 1000003
+NZero == 1000004      \* -0.0 (the integer 0 is +0.0): distinct bit patterns, distinct model values
 Specials == {NaN, PInf, NInf}
 BigN == 2000000       \* the count usize::MAX
 
@@ -51,14 +52,20 @@ GCells  == {HT[h].cell : h \in {x \in Handles : HT[x].kind = "gauge"}} \ {0}
 HCells  == {HT[h].cell : h \in {x \in Handles : HT[x].kind = "hist"}} \ {0}
 
 -----------------------------------------------------------------------------
-(* IEEE-754 addition on integers \cup {NaN, +Inf, -Inf} *)
+(* IEEE-754 addition (round to nearest) on integers \cup {NaN, +Inf, -Inf, -0}; the integer 0 is +0.0.
+   Signed zeros: -0 + -0 = -0;  -0 + x = x + -0 = x for every other x (so -0 + +0 = +0);  x + (-x) = +0 for
+   finite x (the integer sum 0);  negation flips the sign of zero, so  +0 - +0 = +0 + -0 = +0,
+   -0 - -0 = -0 + +0 = +0,  -0 - +0 = -0 + -0 = -0,  +0 - -0 = +0. *)
 Add(x, y) ==
   IF x = NaN \/ y = NaN THEN NaN
   ELSE IF x = PInf THEN (IF y = NInf THEN NaN ELSE PInf)
   ELSE IF x = NInf THEN (IF y = PInf THEN NaN ELSE NInf)
   ELSE IF y \in {PInf, NInf} THEN y
+  ELSE IF x = NZero THEN y             \* y = -0 gives -0, anything else is unchanged
+  ELSE IF y = NZero THEN x
   ELSE x + y
-Neg(x) == IF x = NaN THEN NaN ELSE IF x = PInf THEN NInf ELSE IF x = NInf THEN PInf ELSE 0 - x
+Neg(x) == IF x = NaN THEN NaN ELSE IF x = PInf THEN NInf ELSE IF x = NInf THEN PInf
+          ELSE IF x = NZero THEN 0 ELSE IF x = 0 THEN NZero ELSE 0 - x
 Sub(x, y) == Add(x, Neg(y))
 
 (* IntoF64 (common.rs): f64 identity; f32/i8..u32 via f64::from (exact); Duration::as_secs_f64.
